@@ -3,6 +3,7 @@ package main
 
 import (
 	"fmt"
+	hessian "github.com/vogo/gohessian"
 	"reflect"
 	"sort"
 	"strings"
@@ -150,7 +151,7 @@ func buildGraph(n int, slots []int, filler int, extra *rng) *GNode {
 			if k > 0 {
 				nodes[i].Tab = map[string]*GNode{}
 				for j := 0; j < k; j++ {
-					nodes[i].Tab[fmt.Sprint("k", j)] = pick(extra.intn(n+1))
+					nodes[i].Tab[fmt.Sprint("k", j)] = pick(extra.intn(n + 1))
 				}
 			}
 		}
@@ -176,7 +177,7 @@ func c04Class(want, got string) string { return "" }
 
 func c04Check(c *ctx, root *GNode, in map[string]interface{}) {
 	want := graphCanon(root)
-	_, dec, eo, do, msg := publicRoundTrip(root)
+	bs, dec, eo, do, msg := publicRoundTrip(root)
 	if eo != oOK {
 		c.fail("encoding a pointer graph fails or does not terminate normally", in, eo.String()+": "+msg, "")
 		return
@@ -184,6 +185,14 @@ func c04Check(c *ctx, root *GNode, in map[string]interface{}) {
 	if do != oOK {
 		c.fail("decoding the encoder's rendering of a graph fails", in, do.String()+": "+msg, "")
 		return
+	}
+	// both models on the same graph: the encoder model must write these bytes, the decoder model must build this heap
+	if len(bs) < 6000 {
+		tm, nm := hessian.ExtractTypeNameMap(root)
+		if h, err := hparseAll(bs); err == nil {
+			encCorr(c, root, nm, bs, h)
+		}
+		decCorr(c, tm, bs)
 	}
 	got := graphCanon(dec)
 	if got != want {
